@@ -179,7 +179,9 @@ Theorem C01_pristine_two_colons_refuted :
   flow_of (ex_tcp fixed [two_colons ++ [122]]) = Continue /\
   parses (actions_of (ex_tcp fixed [two_colons ++ [122]])) = two_colons ++ [122].
 Proof. exact pristine_two_colons_dies. Qed.
+Print Assumptions C01_pristine_two_colons_refuted.
 Theorem C01_pristine_wide_reply_refuted :
   flow_of (ex_tcp pristine [[119; 122]]) = Died /\
   actions_of (ex_tcp fixed [[119; 122]]) = [Parse 119; Parse 122].
 Proof. exact pristine_wide_reply_dies. Qed.
+Print Assumptions C01_pristine_wide_reply_refuted.
